@@ -45,6 +45,9 @@ class Missing(metaclass=MissingType):
     def __repr__(self) -> str:
         return "MISSING"
 
+    def __reduce__(self) -> Any:
+        return (Missing, ())  # copy and pickle resolve to the same singleton instance
+
     def __getattr__(
         self,
         name: str,
